@@ -465,3 +465,15 @@ func ZZ_C15_sites() {
 		zzAssert(zzCTCalls == 1, "C15: threshold changes only by recomputation from the background mean")
 	}
 }
+
+// replay entries of this file (registered here so that the file can be left out
+// on its own when it does not compile against the tree under check)
+func init() {
+	zzEntries["ZZ_C07_bmc"] = ZZ_C07_bmc
+	zzEntries["ZZ_C08_bmc"] = ZZ_C08_bmc
+	zzEntries["ZZ_C09_bmc"] = ZZ_C09_bmc
+	zzEntries["ZZ_C15_update"] = ZZ_C15_update
+	zzEntries["ZZ_C15_clamp"] = ZZ_C15_clamp
+	zzEntries["ZZ_C15_detect"] = ZZ_C15_detect
+	zzEntries["ZZ_C15_sites"] = ZZ_C15_sites
+}
